@@ -255,6 +255,12 @@ theorem C12_malformed_counterexample : ¬ C12_malformed_full := by
   rw [h4] at h3
   cases h3
 
+/-- The executable forms the driver evaluates (`c12.spec_malformed`) are sound for the two
+hypotheses above, so a `true` answer of the driver is an instance of the theorems. -/
+theorem C12_spec_malformed_sound (toks : List (Nat × Str)) :
+    (malformedB toks = true → Malformed toks) ∧ (tieFreeB toks = true → TieFree toks) :=
+  ⟨malformed_of_B toks, tieFree_of_B toks⟩
+
 /-- Non-vacuity of `C12_malformed_partial`: an unmatched closing mark, a rejected token. -/
 example : malformedB (hintToks "x = 1 # paroxython: ...foo".toList) = true := by decide
 example : malformedB (hintToks "x = 1 # paroxython: +-foo".toList) = true := by decide
